@@ -4,18 +4,65 @@
    cells; tau relocates labels and pointer targets (inclusive at the insertion point iff ge).
    Tied to src/bin_archive.rs, src/bin_streams.rs by `./check C03`. *)
 From Coq Require Import List NArith ZArith Bool.
-From Mila Require Import Lib.Bytes Lib.Machine Model.BinArchive Model.BinStreams Proofs.AMapLemmas Proofs.BinAccess Proofs.BinRelocate Proofs.BinInvariant.
+From Mila Require Import Lib.Bytes Lib.Machine Model.BinArchive Model.BinStreams Proofs.AMapLemmas Proofs.BinAccess Proofs.BinRelocate Proofs.BinInvariant Proofs.BinKeysInvariant.
 Import ListNotations.
 Local Open Scope N_scope.
 
-(* ---- insert: accepted iff in range and aligned; otherwise rejected (archive unchanged: no new state) ---- *)
+(* ---- insert: accepted iff in range, aligned and REPRESENTABLE; otherwise rejected, archive unchanged ----
+   [moved addr ge t]: the label address / pointer target t is moved by an insertion at addr (addr < t, or addr = t when ge).
+   Representable (code: fix 0edd128, finding F24): the new size is a valid vector length (<= isize::MAX = 2^63 - 1) and every
+   pointer target that moves stays a usize (t + n < 2^64; write_pointer accepts any usize as target, so this is a real
+   condition on API-reachable archives).  Above the size bound the request is REJECTED (Err EOob), it does not panic. *)
 Theorem C03_allocate_ok_iff : forall a addr n ge,
-  (exists a', allocate a addr n ge = Ok a') <-> (addr <= size a /\ addr mod 4 = 0 /\ n mod 4 = 0).
+  (exists a', allocate a addr n ge = Ok a') <->
+  (addr <= size a /\ addr mod 4 = 0 /\ n mod 4 = 0
+   /\ size a + n <= 2 ^ 63 - 1
+   /\ (forall c t, In (c, t) (a_ptrs a) -> moved addr ge t -> t + n < 2 ^ 64)).
 Proof. exact allocate_ok_iff. Qed.
 Theorem C03_allocate_rejected : forall a addr n ge,
-  ~ (addr <= size a /\ addr mod 4 = 0 /\ n mod 4 = 0) ->
+  ~ (addr <= size a /\ addr mod 4 = 0 /\ n mod 4 = 0
+     /\ size a + n <= 2 ^ 63 - 1
+     /\ (forall c t, In (c, t) (a_ptrs a) -> moved addr ge t -> t + n < 2 ^ 64)) ->
   allocate a addr n ge = Err EOob \/ allocate a addr n ge = Err EUnaligned.
 Proof. exact allocate_rejected. Qed.
+Theorem C03_allocate_never_panics : forall a addr n ge k, allocate a addr n ge <> Panic k.
+Proof. exact allocate_never_panics. Qed.
+
+(* "rejected and the archive unchanged" as a statement that can fail: [allocate_m m] (Model/BinArchive.v) is allocate in the
+   statement order of the code - checks, splice of the data, then the relocation of the maps with EVERY usize addition (cells,
+   label addresses, c-string cells, pointer targets) as [add_w 64] in profile m (Checked: overflow panics, Wrapping: wraps) - and
+   returns the outcome TOGETHER WITH the archive `&mut self` is left with (after a panic in the relocation: the half-relocated
+   one).  For both profiles it equals the functional [allocate]: no panic, no wrapped value, and whenever the result is not Ok
+   the archive is the one passed in.  Hypothesis [keys_le_size a]: every annotation key is <= size a - true after EVERY history
+   of API calls, aligned or not, accepted or rejected (C03_keys_invariant).  (Without the representability check the statement
+   is false: BinRelocate.allocate_apply_unchecked_panics is the input of finding F24.)
+   deallocate / truncate: every `?` precedes the first mutation in the code and the remaining arithmetic cannot fail
+   (C03_deallocate_subtractions_exact), so there "unchanged" is carried by the outcome type and tied to the code by leg K,
+   which compares the full state after every rejected operation. *)
+Theorem C03_keys_invariant : forall e ops, keys_le_size (fold_left bstep ops (ba_new e)).
+Proof. exact history_keys_invariant. Qed.
+Theorem C03_allocate_steps_agree : forall m a addr n ge,
+  keys_le_size a ->
+  allocate_m m a addr n ge =
+    match allocate a addr n ge with Ok a' => (Ok tt, a') | Err e => (Err e, a) | Panic k => (Panic k, a) end.
+Proof. exact allocate_m_is_allocate. Qed.
+Theorem C03_allocate_failure_unchanged : forall m a addr n ge,
+  keys_le_size a -> fst (allocate_m m a addr n ge) <> Ok tt -> snd (allocate_m m a addr n ge) = a.
+Proof. exact allocate_m_failure_unchanged. Qed.
+Theorem C03_allocate_steps_never_panic : forall m a addr n ge k, keys_le_size a -> fst (allocate_m m a addr n ge) <> Panic k.
+Proof. exact allocate_m_never_panics. Qed.
+(* the relocated targets are usize values again; on archives whose cells lie inside the data (C03_invariant) so are all keys *)
+Theorem C03_allocate_targets_usize : forall a addr n ge a',
+  allocate a addr n ge = Ok a' ->
+  (forall c t, In (c, t) (a_ptrs a) -> t < 2 ^ 64) -> forall c t, In (c, t) (a_ptrs a') -> t < 2 ^ 64.
+Proof. exact allocate_targets_usize. Qed.
+Theorem C03_allocate_keys_usize : forall a addr n ge a',
+  wf_cells a -> allocate a addr n ge = Ok a' ->
+  size a' <= 2 ^ 63 - 1 /\
+  Forall (fun k => k + 4 <= 2 ^ 63 - 1) (am_keys (a_text a')) /\ Forall (fun k => k + 4 <= 2 ^ 63 - 1) (am_keys (a_ptrs a')) /\
+  Forall (fun k => k <= 2 ^ 63 - 1) (am_keys (a_labels a')) /\
+  Forall (fun q => Forall (fun k => k + 4 <= 2 ^ 63 - 1) (snd q)) (a_cstrs a').
+Proof. exact allocate_keys_usize. Qed.
 
 (* exact relocation, losing and inventing nothing: every key of the new maps is the image of an old key *)
 Theorem C03_allocate_spec : forall a addr n ge a',
@@ -43,6 +90,20 @@ Theorem C03_deallocate_rejected : forall a addr n ge,
 Proof. exact deallocate_rejected. Qed.
 Theorem C03_deallocate_never_panics : forall a addr n ge k, deallocate a addr n ge <> Panic k.
 Proof. exact deallocate_never_panics. Qed.
+(* the usize subtractions `destination - count` / `pointer - count` (written as truncated N subtraction in the model) are only
+   executed on survivors of the filters that lie at or behind addr, hence on values >= addr + n: exact in both profiles *)
+Theorem C03_deallocate_subtractions_exact : forall m a addr n ge,
+  (forall c t, In (c, t) (filter_pointers (a_ptrs a) addr n) ->
+     (moves t addr ge = true -> n <= t /\ sub_w 64 m t n = Ok (t - n)) /\ (addr <= c -> n <= c /\ sub_w 64 m c n = Ok (c - n)))
+  /\ (forall k, In k (am_keys (filter_text_or_labels (a_text a) addr n)) -> addr <= k -> n <= k /\ sub_w 64 m k n = Ok (k - n))
+  /\ (forall k, In k (am_keys (filter_text_or_labels (a_labels a) addr n)) -> addr <= k -> n <= k /\ sub_w 64 m k n = Ok (k - n))
+  /\ (forall s cells k, In (s, cells) (filter_cstrs (fun k => negb (in_range addr n k)) (a_cstrs a)) -> In k cells -> addr <= k ->
+        n <= k /\ sub_w 64 m k n = Ok (k - n)).
+Proof.
+  intros m a addr n ge. split; [intros c t H; split; [exact (deallocate_target_sub_exact m _ addr n ge c t H) | exact (deallocate_cell_sub_exact m _ addr n c t H)]|].
+  split; [exact (deallocate_key_sub_exact m (a_text a) addr n)|]. split; [exact (deallocate_key_sub_exact m (a_labels a) addr n)|].
+  exact (deallocate_cstr_sub_exact m (a_cstrs a) addr n).
+Qed.
 
 Theorem C03_deallocate_spec : forall a addr n ge a',
   deallocate a addr n ge = Ok a' ->
@@ -74,23 +135,65 @@ Proof. exact truncate_spec. Qed.
 Theorem C03_truncate_total : forall a addr, exists a', truncate a addr = Ok a'.
 Proof. exact truncate_total. Qed.
 
-(* ---- appending at the end is always accepted and moves no annotation ---- *)
+(* ---- relocated maps stay maps: no two annotations are merged onto one key (HashMap::collect loses nothing) ---- *)
+Theorem C03_allocate_keeps_maps : forall a addr n ge a',
+  allocate a addr n ge = Ok a' ->
+  (NoDup (am_keys (a_text a)) -> NoDup (am_keys (a_text a'))) /\
+  (NoDup (am_keys (a_ptrs a)) -> NoDup (am_keys (a_ptrs a'))) /\
+  (NoDup (am_keys (a_labels a)) -> NoDup (am_keys (a_labels a'))).
+Proof. exact allocate_keeps_maps. Qed.
+Theorem C03_deallocate_keeps_maps : forall a addr n ge a',
+  deallocate a addr n ge = Ok a' ->
+  (NoDup (am_keys (a_text a)) -> NoDup (am_keys (a_text a'))) /\
+  (NoDup (am_keys (a_ptrs a)) -> NoDup (am_keys (a_ptrs a'))) /\
+  (NoDup (am_keys (a_labels a)) -> NoDup (am_keys (a_labels a'))).
+Proof. exact deallocate_keeps_maps. Qed.
+Theorem C03_truncate_keeps_maps : forall a addr a',
+  truncate a addr = Ok a' ->
+  (NoDup (am_keys (a_text a)) -> NoDup (am_keys (a_text a'))) /\
+  (NoDup (am_keys (a_ptrs a)) -> NoDup (am_keys (a_ptrs a'))) /\
+  (NoDup (am_keys (a_labels a)) -> NoDup (am_keys (a_labels a'))).
+Proof. exact truncate_keeps_maps. Qed.
+
+(* ---- appending at the end is always accepted and moves no annotation ----
+   Guard (assumption A-usize): the new size is a valid vector length, size a + n <= isize::MAX = 2^63 - 1.  Above it the code
+   does not return: allocate_at_end pushes byte by byte until the allocator aborts the process (Vec capacity overflow /
+   out of memory) - resource exhaustion, outside the property; the model (a list append) has no such limit, so without the
+   guard the theorem would not be about the code. *)
 Theorem C03_append_always : forall a n,
-  a_data (allocate_at_end a n) = a_data a ++ zeros (N.to_nat n) /\ same_annotations a (allocate_at_end a n).
+  size a + n <= 2 ^ 63 - 1 ->
+  a_data (allocate_at_end a n) = a_data a ++ zeros (N.to_nat n) /\ same_annotations a (allocate_at_end a n)
+  /\ size (allocate_at_end a n) = size a + n.
 Proof. exact allocate_at_end_spec. Qed.
 Theorem C03_writer_append_always : forall a n ge,
+  size a + n <= 2 ^ 63 - 1 ->
   w_allocate a (size a) n ge = (Ok tt, allocate_at_end a n, size a).
-Proof. intros. unfold w_allocate. rewrite N.eqb_refl. reflexivity. Qed.
+Proof. intros a n ge _. unfold w_allocate. rewrite N.eqb_refl. reflexivity. Qed.
 
 (* ---- invariant over all histories of cell-aligned operations: every annotated cell lies inside the data ---- *)
 Theorem C03_invariant : forall e ops, Forall aligned_op ops -> wf_cells (fold_left bstep ops (ba_new e)).
 Proof. exact history_invariant. Qed.
 
-(* non-vacuity: a string at 0, a pending c-string at 8, a label on the end; insert 4 bytes at 4 *)
+(* non-vacuity: a string at 0, a pending c-string at 8, a label on the end; insert 4 bytes at 4
+   (closed terms only: the run is a bind chain, so vm_compute never sees a symbolic archive) *)
 Example C03_example :
-  let a0 := allocate_at_end (ba_new LE) 12 in
-  exists a1 a2 a3 a4,
-    write_string a0 0 (Some [65]) = Ok a1 /\ write_c_string a1 8 [66] = Ok a2 /\ write_label a2 12 [76] = Ok a3 /\
-    allocate a3 4 4 false = Ok a4 /\
-    am_get 0 (a_text a4) = Some [65] /\ a_cstrs a4 = [([66], [12])] /\ am_get 16 (a_labels a4) = Some [[76]] /\ size a4 = 16.
-Proof. vm_compute. do 4 eexists. repeat split. Qed.
+  (a1 <- write_string (allocate_at_end (ba_new LE) 12) 0 (Some [65]) ;;
+   a2 <- write_c_string a1 8 [66] ;;
+   a3 <- write_label a2 12 [76] ;;
+   a4 <- allocate a3 4 4 false ;;
+   Ok (am_get 0 (a_text a4), a_cstrs a4, am_get 16 (a_labels a4), size a4))
+  = Ok (Some [65], [([66], [12])], Some [[76]], 16).
+Proof. vm_compute. reflexivity. Qed.
+(* the rejection added by fix 0edd128 (finding F24): 8 bytes, a pointer at 0 whose target is usize::MAX - 1; inserting 4 bytes at 0
+   would move the target out of usize; the same request is accepted when the target does not move (insert behind it is impossible,
+   so: ge = false and the target ON the insertion point) *)
+Example C03_example_unrepresentable :
+  (a1 <- write_pointer (allocate_at_end (ba_new LE) 8) 0 (Some 18446744073709551614) ;; allocate a1 0 4 false) = Err EOob
+  /\ (a1 <- write_pointer (allocate_at_end (ba_new LE) 8) 4 (Some 18446744073709551612) ;;
+      a2 <- allocate a1 0 4 true ;; Ok (a_ptrs a2)) = Err EOob
+  /\ (a1 <- write_pointer (allocate_at_end (ba_new LE) 8) 4 (Some 18446744073709551608) ;;
+      a2 <- allocate a1 0 4 true ;; Ok (a_ptrs a2)) = Ok [(8, 18446744073709551612)]
+  /\ (a1 <- write_pointer (allocate_at_end (ba_new LE) 8) 4 (Some 0) ;;
+      a2 <- allocate a1 0 4 false ;; Ok (a_ptrs a2)) = Ok [(8, 0)]
+  /\ allocate (allocate_at_end (ba_new LE) 8) 8 9223372036854775800 false = Err EOob.
+Proof. vm_compute. repeat split. Qed.
